@@ -11,7 +11,7 @@ for i in 01 02 03 04 05 06 07 08 09 10 11 12 13 14 15 16 17 18 19 20; do
   OUT=$(cd /verif && ./check C$i quick 2>&1 | grep -E "^VIOLATION|quick:|disagreement|translator|broken" | cut -c1-400)
   RES="$RES$OUT\n"
 done
-git -C /repo checkout -- .
+git -C /repo checkout -- . && git -C /repo clean -fdq src
 git -C /verif checkout -- evidence lean/Rws/Gen 2>/dev/null
 (cd /verif/harness && RWS_SRC=/repo/src cargo build --offline >/dev/null 2>&1)
 printf "%b" "$RES" > $S/ran.txt
